@@ -385,7 +385,10 @@ ASSUMPTIONS = [
     "decoder environment sd_env_ok (data packets as the protocol layer delivers them): a packet is a run of words from a word with "
     "`first` to a word with `last`; only the last word may have a partial byte-valid mask; after the last word exactly one of "
     "rx_good / rx_bad arrives before the next packet starts, or rx_bad aborts the packet before its last word; a verdict without "
-    "payload words is allowed; a word and a verdict never share a cycle; the setup flag of the header is sampled with the first word",
+    "payload words is allowed; rx_good never shares a cycle with a word, rx_bad MAY share a cycle with any word of the packet (the "
+    "link layer's DataPacketReceiver aborts a packet on a K-symbol in the payload by strobing packet_bad in the very cycle it presents "
+    "that word) and ends the packet there; the setup flag of the header is sampled with the first word. The environment itself is "
+    "checked against the real DataPacketReceiver by the composed obligation spec_rx_setupdec (leaving it is a failure there)",
     "'exactly eight bytes' = exactly two words, both with all four byte-valid bits set, at the time rx_good arrives",
     "descriptor handler environment of the stream theorems: `value` and `length` are held and `start` stays low from the cycle after "
     "`start` until the answer has been handed over; the selected generator is idle and the tx register empty when `start` arrives "
@@ -409,7 +412,10 @@ LEVEL_TEXT = (
     "predicate). The UNCHANGED code violates the property (confirmed on Amaranth's simulator, and as a Coq example inside the environment): "
     "after a good setup-flagged packet of 4..7 bytes it stays in PARSE_SECOND across packet boundaries and then either reports a setup "
     "packet glued from two different packets or drops a genuine one; ./check C48 exits 1 on the unchanged tree with an environment-"
-    "respecting replay and 0 with findings/C48-short-setup-packet.diff. Tie: the decoder netlist is proved equal to the model on all "
+    "respecting replay and 0 with findings/C48-short-setup-packet.diff. A SECOND defect remains with that patch applied (HEAD 0102d72): a "
+    "setup-flagged packet whose FIRST word is aborted by rx_bad in the same cycle still starts a parse, so the retried SETUP is dropped or "
+    "a following 4-byte packet is reported as a setup request (findings/C48-abort-on-first-word.json/.diff; found by widening the "
+    "environment to what DataPacketReceiver really does, confirmed on the composed receiver+decoder). Tie: the decoder netlist is proved equal to the model on all "
     "packet-delivery histories over a data/mask alphabet (certified product reachability), giving netlist = specification. "
     "DESCRIPTOR HANDLER: (2) C48_descriptor_stream(_any) -- for every descriptor collection, known (type,index), 0 < wLength < 2^16 and "
     "every tx.ready pattern, the words handed over on tx followed by those still queued are exactly the beats of C27's specified answer "
